@@ -1,40 +1,34 @@
 /-
-  C06, UTRs of a chunk-built transcript, for a chunk that contains the whole transcript: the answer is the chunk
-  image of the chromosome-level UTR.  (When the chunk cuts the transcript the code applies whole-transcript
-  indices to the in-chunk part: finding F-C06b.)
+  C06, UTRs of a chunk-built transcript (code after the repair of F-C06b): the answer is the UTR's in-chunk bases,
+  in transcript order, in chunk coordinates — for EVERY chunk, cutting the transcript or not.
 -/
-import BioCantor.Proofs.TxChunkMain
+import BioCantor.Proofs.TxChunkStart
 set_option linter.unusedSimpArgs false
+set_option linter.unusedVariables false
 namespace BioCantor.Proofs
 open BioCantor BioCantor.Spec BioCantor.Model BioCantor.Model.Transcript BioCantor.Model.ChunkTranscript
 
-theorem locLen_eq (m : Location) : locLen m = (locationBases m).length := by
-  cases m with
-  | single b st => simp only [locLen, locationBases]; rw [bases_length]; simp [Loc.len, blocksLen]
-  | compound l => simp only [locLen, locationBases]; rw [bases_length]
-  | empty => rfl
-
-theorem toLoc_of_ne_empty (m : Location) (h : m ≠ .empty) : ∃ L, toLoc m = some L := by
-  cases m with
-  | single b st => exact ⟨_, rfl⟩
-  | compound l => exact ⟨_, rfl⟩
-  | empty => exact absurd rfl h
-
-/-- the pieces shared by both UTR proofs -/
-structure UtrCtx (c : ChunkTranscript) (d : Loc) (k : Nat) : Prop where
+/-- everything both UTR proofs need, in one place -/
+structure UtrCtx (c : ChunkTranscript) (d : Loc) (k a b : Nat) : Prop where
   hD : (specOf c.base).D = some d
   off : cdsOffset d c.base.exons = some k
   q : ∃ q, (bases d).head? = some q ∧ idxOf? q (bases c.base.exons) = some k
   he : ((bases c.base.exons).drop k).take (bases d).length = bases d
+  hb : b ≤ (bases c.base.exons).length
+  range : ∀ i (hi : i < (bases c.base.exons).length), inWin c.w (bases c.base.exons)[i] = true ↔ (a ≤ i ∧ i < b)
+  filt : (bases c.base.exons).filter (inWin c.w) = ((bases c.base.exons).take b).drop a
   dl : c.cdsLocation = some (chunkLocOf (initOf d) (winOf c))
-  basesE : locationBases c.location = (bases c.base.exons).map (chunkOf (winOf c))
-  basesD : locationBases (chunkLocOf (initOf d) (winOf c)) = (bases d).map (chunkOf (winOf c))
+  basesE : locationBases c.location = ((bases c.base.exons).filter (inWin c.w)).map (chunkOf (winOf c))
+  basesD : locationBases (chunkLocOf (initOf d) (winOf c)) = ((bases d).filter (inWin c.w)).map (chunkOf (winOf c))
   wfm : WF c.location
   Lm : ∀ L', toLoc c.location = some L' → L'.strand ≠ .unstranded ∧ L'.strand = compose c.base.exons.strand c.wst ∧
-        nonOverlap L'.blocks = true ∧ bases L' = (bases c.base.exons).map (chunkOf (winOf c))
+        nonOverlap L'.blocks = true ∧
+        bases L' = ((bases c.base.exons).filter (inWin c.w)).map (chunkOf (winOf c))
+  dEmpty : (bases d).filter (inWin c.w) = [] → chunkLocOf (initOf d) (winOf c) = .empty
+  start : c.location ≠ .empty → a < b ∧ c.chunkRelativeTranscriptStart = .ok (a : Int)
 
-theorem utrCtx (c : ChunkTranscript) (h : WFC c) (d : Loc) (hc : Coding c.base d) (hnoD : d.NonOverlap)
-    (hall : ∀ x ∈ bases c.base.exons, inWin c.w x = true) : ∃ k, UtrCtx c d k := by
+theorem utrCtx (c : ChunkTranscript) (h : WFC c) (d : Loc) (hc : Coding c.base d) (hnoD : d.NonOverlap) :
+    ∃ k a b, UtrCtx c d k a b := by
   obtain ⟨k, q, hq, hk, hoff, he⟩ := isSub_unpack d _ hc.sub
   have hD : (specOf c.base).D = some d := by simp [specOf, hc.cds]
   obtain ⟨hdir, hno, hds⟩ := txScope_unpack _ d hD hc.scope
@@ -43,77 +37,135 @@ theorem utrCtx (c : ChunkTranscript) (h : WFC c) (d : Loc) (hc : Coding c.base d
   obtain ⟨hwf, hb, hL⟩ := chunk_location_facts c.base.exons h.base.exons hdir.1 hno (winOf c) h.win
   have hdd : d.strand ≠ .unstranded := by rw [hds]; exact hdir.1
   obtain ⟨_, hbd, _⟩ := chunk_location_facts d (h.base.cds d hc.cds).1 hdd hnoD (winOf c) h.win
-  have hallD : ∀ x ∈ bases d, inWin c.w x = true := fun x hx => hall x ((isSub_sublist _ _ hc.sub).subset hx)
-  refine ⟨k, ⟨hD, hoff, ⟨q, hq, hk⟩, he, ?_, ?_, ?_, ?_, ?_⟩⟩
+  have hsorted : (bases c.base.exons).Pairwise (· < ·) ∨ (bases c.base.exons).Pairwise (· > ·) := by
+    have hp := nonOverlap_pairwise c.base.exons.blocks ((blocksValid_iff _).1 h.base.exons.2.1) hno
+    exact bases_sorted (bs := c.base.exons.blocks) (st := c.base.exons.strand) hp
+  obtain ⟨a, b, ha, hbl, hrange⟩ := inWin_index_range (bases c.base.exons) c.w hsorted
+  have hfilt := filter_index_range (inWin c.w) (bases c.base.exons) a b hrange
+  have hnd : (bases c.base.exons).Nodup := hc.nodupE h.base
+  refine ⟨k, a, b, ⟨hD, hoff, ⟨q, hq, hk⟩, he, hbl, hrange, hfilt, ?_, ?_, ?_, ?_, ?_, ?_, ?_⟩⟩
   · rw [h.cds, hc.cds]; rfl
-  · rw [h.loc, hb, chunkBases_all _ _ hall]
-  · rw [hbd, chunkBases_all _ _ hallD]
+  · rw [h.loc, hb]; rfl
+  · rw [hbd]; rfl
   · rw [h.loc]; exact hwf
   · intro L' hL'
     rw [h.loc] at hL'
-    obtain ⟨a, b, c', e⟩ := hL L' hL'
-    exact ⟨a, b, c', by rw [e, chunkBases_all _ _ hall]⟩
+    obtain ⟨x, y, z, e⟩ := hL L' hL'
+    exact ⟨x, y, z, by rw [e]; rfl⟩
+  · intro hemp
+    apply chunkLocOf_no_bases _ _ (toLoc_initOf _) (initOf_wf _ (h.base.cds d hc.cds).1) (dir_of_ne _ hdd) hnoD
+      (winOf c) h.win
+    unfold chunkBases; simp only; rw [hemp]; rfl
+  · intro hne
+    obtain ⟨m, hm, hmwf, hmdir, hmb⟩ := bounded_location c h hdir.1 hno hne
+    have hFne : (bases c.base.exons).filter (inWin c.w) ≠ [] := by
+      intro e
+      apply hne
+      rw [h.loc]
+      apply chunkLocOf_no_bases _ _ (toLoc_initOf _) (initOf_wf _ h.base.exons) (dir_of_ne _ hdir.1) hno (winOf c) h.win
+      unfold chunkBases; simp only; rw [e]; rfl
+    have hab : a < b := by
+      rcases Nat.lt_or_ge a b with h1 | h1
+      · exact h1
+      · exfalso; apply hFne; rw [hfilt]
+        apply List.drop_eq_nil_of_le
+        simp only [List.length_take]; omega
+    refine ⟨hab, ?_⟩
+    have halt : a < (bases c.base.exons).length := by omega
+    unfold ChunkTranscript.chunkRelativeTranscriptStart
+    have hne' : (c.location == Location.empty) = false := by simpa using hne
+    simp only [hne', Bool.false_eq_true, if_false, hm, bind, Except.bind]
+    have h1 := r2p_listAt m hmwf hmdir 0
+    rw [hmb, hfilt] at h1
+    unfold listAt at h1
+    simp only [show ¬ ((0 : Int) < 0) by omega, if_false, Int.toNat_zero, List.getElem?_drop, Nat.add_zero,
+      List.getElem?_take, hab, if_true, List.getElem?_eq_getElem halt, Option.map_some] at h1
+    rw [ans_eq_some] at h1
+    rw [h1]
+    simp only []
+    rw [← ans_eq_some, ans_c2t c.base h.base]
+    unfold expC2T
+    have := posIdx_of c.base.exons hdir.1 _ a
+      (idxOf?_nodup _ _ hnd a (List.getElem?_eq_getElem halt))
+    simpa [specOf] using this
 
-theorem kutr5_ok (c : ChunkTranscript) (h : WFC c) (d : Loc) (hc : Coding c.base d) (hnoD : d.NonOverlap)
-    (hall : ∀ x ∈ bases c.base.exons, inWin c.w x = true) :
+/-- the three stretches of the transcript, filtered -/
+theorem filter_tile (P : Nat → Bool) (B D : List Nat) (k : Nat) (he : (B.drop k).take D.length = D) :
+    (B.filter P).length = ((B.take k).filter P).length + (D.filter P).length
+      + ((B.drop (k + D.length)).filter P).length := by
+  have := congrArg (fun l => (l.filter P).length) (tile B D k he)
+  simp only [List.filter_append, List.length_append] at this
+  omega
+
+theorem kutr5_ok (c : ChunkTranscript) (h : WFC c) (d : Loc) (hc : Coding c.base d) (hnoD : d.NonOverlap) :
     okKUtr (specOf c.base) (winOf c) true (ans c.get5pInterval) = true := by
-  obtain ⟨k, ctx⟩ := utrCtx c h d hc hnoD hall
+  obtain ⟨k, a, b, ctx⟩ := utrCtx c h d hc hnoD
   obtain ⟨q, hq, hk⟩ := ctx.q
   have hE : (specOf c.base).E = c.base.exons := rfl
   have hklt := idxOf?_lt _ _ _ hk
-  have hfit := isSub_len d c.base.exons k ctx.he
-  have hfilter : ((bases c.base.exons).take k).filter (inWin c.w) = (bases c.base.exons).take k :=
-    List.filter_eq_self.2 (fun x hx => hall x (List.mem_of_mem_take hx))
   have claim : ∃ u, ans c.get5pInterval = some u ∧ wfLocation u = true ∧
       (u = .empty ∨ locationStrand? u = some (compose c.base.exons.strand c.wst)) ∧
-      locationBases u = ((bases c.base.exons).take k).map (chunkOf (winOf c)) := by
-    unfold ChunkTranscript.get5pInterval requireCodingLocation
-    simp only [ctx.dl, bind, Except.bind, pure, Except.pure]
+      locationBases u = (((bases c.base.exons).take k).filter (inWin c.w)).map (chunkOf (winOf c)) := by
+    unfold ChunkTranscript.get5pInterval requireCodingLocation requireCoding
+    simp only [ctx.dl, hc.cds, bind, Except.bind, pure, Except.pure]
     by_cases heq : chunkLocOf (initOf d) (winOf c) = c.location
-    · -- same in-chunk location: same bases, so the CDS is the whole transcript and both UTRs are empty
-      have hlen : (bases d).length = (bases c.base.exons).length := by
+    · -- equal in-chunk locations: every in-chunk transcript base is a CDS base
+      have hlen : ((bases d).filter (inWin c.w)).length = ((bases c.base.exons).filter (inWin c.w)).length := by
         have := congrArg (fun m => (locationBases m).length) heq
         simp only [ctx.basesD, ctx.basesE, List.length_map] at this
         exact this
-      have hk0 : k = 0 := by omega
-      subst hk0
-      exact ⟨.empty, by simp [heq], rfl, Or.inl rfl, by simp [locationBases]⟩
+      have ht := filter_tile (inWin c.w) (bases c.base.exons) (bases d) k ctx.he
+      have : ((bases c.base.exons).take k).filter (inWin c.w) = [] := by
+        apply List.eq_nil_of_length_eq_zero; omega
+      exact ⟨.empty, by simp [heq], rfl, Or.inl rfl, by rw [this]; rfl⟩
     · simp only [heq, if_false]
+      have hne : c.location ≠ .empty := by
+        intro e
+        apply heq
+        rw [e]
+        apply ctx.dEmpty
+        have h0 : (bases c.base.exons).filter (inWin c.w) = [] := by
+          have := ctx.basesE
+          rw [e] at this
+          simpa [locationBases] using this.symm
+        have := (isSub_sublist _ _ hc.sub).filter (inWin c.w)
+        rw [h0] at this
+        exact List.sublist_nil.1 this
+      obtain ⟨hab, hstart⟩ := ctx.start hne
       have h1 : ans (c.base.cdsPosToTranscript 0) = some (k : Int) := by
         rw [ans_d2t c.base h.base 0]; exact d2t_first _ d ctx.hD hc.dir k q hq hk
       rw [ans_eq_some] at h1
       rw [h1]
       simp only []
-      have hne : c.location ≠ .empty := by
-        intro e
-        have := ctx.basesE
-        rw [e] at this
-        have := congrArg List.length this
-        simp [locationBases] at this
-        omega
+      rw [hstart]
+      simp only []
       obtain ⟨L', hL'⟩ := toLoc_of_ne_empty _ hne
       obtain ⟨hLd, hLs, hLno, hLb⟩ := ctx.Lm L' hL'
-      have hLlen : L'.len = (bases c.base.exons).length := by
-        rw [← bases_length, hLb, List.length_map]
-      have hok := relInterval_ok c.location ctx.wfm 0 (k : Int) .plus
-      obtain ⟨m, hm, hwf, hs, hb⟩ := okRelint_plus_extract c.location L' hL' hLd hLno 0 k
+      have hFlen : ((bases c.base.exons).filter (inWin c.w)).length = b - a := by
+        rw [ctx.filt]; simp only [List.length_drop, List.length_take]; have := ctx.hb; omega
+      have hLlen : L'.len = b - a := by rw [← bases_length, hLb, List.length_map, hFlen]
+      have hmlen : locLen c.location = b - a := by rw [locLen_bases, ctx.basesE, List.length_map, hFlen]
+      have hclamp : min (max ((k : Int) - (a : Int)) 0) ((locLen c.location : Nat) : Int)
+          = ((min (k - a) (b - a) : Nat) : Int) := by rw [hmlen]; omega
+      rw [hclamp]
+      have hok := relInterval_ok c.location ctx.wfm 0 ((min (k - a) (b - a) : Nat) : Int) .plus
+      obtain ⟨m, hm, hwf, hs, hb⟩ := okRelint_plus_extract c.location L' hL' hLd hLno 0 (min (k - a) (b - a))
         (Nat.zero_le _) (by omega) (by omega) _ hok
-      have hm' : ans (relInterval c.location 0 (k : Int) .plus) = some m := hm
+      have hm' : ans (relInterval c.location 0 ((min (k - a) (b - a) : Nat) : Int) .plus) = some m := hm
       refine ⟨m, hm', hwf, Or.inr (by rw [hs, hLs]), ?_⟩
       simp only [List.drop_zero, Nat.sub_zero, hLb, ← List.map_take] at hb
-      exact hb
+      rw [hb, ctx.filt, take_of_range _ a b k ctx.hb, ← filter_take_range (inWin c.w) _ a b k ctx.range]
   obtain ⟨u, hu, hwf, hst, hb⟩ := claim
   unfold okKUtr
   simp only [ctx.hD, hE, hc.scope, hc.sub, h.win, Bool.and_self, not_true_eq_false, if_false, ctx.off, if_true, hu,
-    hfilter, hwf, hb]
+    hwf, hb]
   rcases hst with rfl | hst
   · simp
   · simp [hst]
 
-theorem kutr3_ok (c : ChunkTranscript) (h : WFC c) (d : Loc) (hc : Coding c.base d) (hnoD : d.NonOverlap)
-    (hall : ∀ x ∈ bases c.base.exons, inWin c.w x = true) :
+theorem kutr3_ok (c : ChunkTranscript) (h : WFC c) (d : Loc) (hc : Coding c.base d) (hnoD : d.NonOverlap) :
     okKUtr (specOf c.base) (winOf c) false (ans c.get3pInterval) = true := by
-  obtain ⟨k, ctx⟩ := utrCtx c h d hc hnoD hall
+  obtain ⟨k, a, b, ctx⟩ := utrCtx c h d hc hnoD
   obtain ⟨q, hq, hk⟩ := ctx.q
   have hE : (specOf c.base).E = c.base.exons := rfl
   have hklt := idxOf?_lt _ _ _ hk
@@ -125,65 +177,72 @@ theorem kutr3_ok (c : ChunkTranscript) (h : WFC c) (d : Loc) (hc : Coding c.base
     rcases isSub_len d c.base.exons k ctx.he with h' | h'
     · exact h'
     · omega
-  have hfilter : ((bases c.base.exons).drop (k + (bases d).length)).filter (inWin c.w)
-      = (bases c.base.exons).drop (k + (bases d).length) :=
-    List.filter_eq_self.2 (fun x hx => hall x (List.mem_of_mem_drop hx))
   have claim : ∃ u, ans c.get3pInterval = some u ∧ wfLocation u = true ∧
       (u = .empty ∨ locationStrand? u = some (compose c.base.exons.strand c.wst)) ∧
-      locationBases u = ((bases c.base.exons).drop (k + (bases d).length)).map (chunkOf (winOf c)) := by
-    unfold ChunkTranscript.get3pInterval requireCodingLocation
-    simp only [ctx.dl, bind, Except.bind, pure, Except.pure]
+      locationBases u =
+        (((bases c.base.exons).drop (k + (bases d).length)).filter (inWin c.w)).map (chunkOf (winOf c)) := by
+    unfold ChunkTranscript.get3pInterval requireCodingLocation requireCoding
+    simp only [ctx.dl, hc.cds, bind, Except.bind, pure, Except.pure]
     by_cases heq : chunkLocOf (initOf d) (winOf c) = c.location
-    · have hlen : (bases d).length = (bases c.base.exons).length := by
+    · have hlen : ((bases d).filter (inWin c.w)).length = ((bases c.base.exons).filter (inWin c.w)).length := by
         have := congrArg (fun m => (locationBases m).length) heq
         simp only [ctx.basesD, ctx.basesE, List.length_map] at this
         exact this
-      have hk0 : k = 0 := by omega
-      subst hk0
-      have : List.drop (0 + (bases d).length) (bases c.base.exons) = [] := by
-        apply List.drop_eq_nil_of_le; omega
+      have ht := filter_tile (inWin c.w) (bases c.base.exons) (bases d) k ctx.he
+      have : ((bases c.base.exons).drop (k + (bases d).length)).filter (inWin c.w) = [] := by
+        apply List.eq_nil_of_length_eq_zero; omega
       exact ⟨.empty, by simp [heq], rfl, Or.inl rfl, by rw [this]; rfl⟩
     · simp only [heq, if_false]
-      have hdlen : (locLen (chunkLocOf (initOf d) (winOf c)) : Int) = ((bases d).length : Int) := by
-        rw [locLen_eq, ctx.basesD, List.length_map]
-      have hmlen : locLen c.location = (bases c.base.exons).length := by
-        rw [locLen_eq, ctx.basesE, List.length_map]
+      have hne : c.location ≠ .empty := by
+        intro e
+        apply heq
+        rw [e]
+        apply ctx.dEmpty
+        have h0 : (bases c.base.exons).filter (inWin c.w) = [] := by
+          have := ctx.basesE
+          rw [e] at this
+          simpa [locationBases] using this.symm
+        have := (isSub_sublist _ _ hc.sub).filter (inWin c.w)
+        rw [h0] at this
+        exact List.sublist_nil.1 this
+      obtain ⟨hab, hstart⟩ := ctx.start hne
       have hnd : (bases c.base.exons).Nodup := hc.nodupE h.base
-      have h1 : ans (c.base.cdsPosToTranscript ((locLen (chunkLocOf (initOf d) (winOf c)) : Int) - 1))
+      have h1 : ans (c.base.cdsPosToTranscript ((d.len : Int) - 1))
           = some (((k + (bases d).length : Nat) : Int) - 1) := by
-        rw [hdlen, ans_d2t c.base h.base]
+        rw [ans_d2t c.base h.base, ← bases_length d]
         exact d2t_last _ d ctx.hD hc.dir hnd k ctx.he hpos
       rw [ans_eq_some] at h1
       rw [h1]
       simp only []
-      have e : (((k + (bases d).length : Nat) : Int) - 1 + 1) = ((k + (bases d).length : Nat) : Int) := by omega
-      rw [e, hmlen]
-      have hne : c.location ≠ .empty := by
-        intro e
-        have := ctx.basesE
-        rw [e] at this
-        have := congrArg List.length this
-        simp [locationBases] at this
-        omega
+      rw [hstart]
+      simp only []
       obtain ⟨L', hL'⟩ := toLoc_of_ne_empty _ hne
       obtain ⟨hLd, hLs, hLno, hLb⟩ := ctx.Lm L' hL'
-      have hLlen : L'.len = (bases c.base.exons).length := by
-        rw [← bases_length, hLb, List.length_map]
-      have hok := relInterval_ok c.location ctx.wfm ((k + (bases d).length : Nat) : Int)
-        (((bases c.base.exons).length : Nat) : Int) .plus
+      have hFlen : ((bases c.base.exons).filter (inWin c.w)).length = b - a := by
+        rw [ctx.filt]; simp only [List.length_drop, List.length_take]; have := ctx.hb; omega
+      have hLlen : L'.len = b - a := by rw [← bases_length, hLb, List.length_map, hFlen]
+      have hmlen : locLen c.location = b - a := by rw [locLen_bases, ctx.basesE, List.length_map, hFlen]
+      have hclamp : min (max ((((k + (bases d).length : Nat) : Int) - 1 + 1) - (a : Int)) 0)
+            ((locLen c.location : Nat) : Int)
+          = ((min (k + (bases d).length - a) (b - a) : Nat) : Int) := by rw [hmlen]; omega
+      rw [hclamp, hmlen]
+      have hok := relInterval_ok c.location ctx.wfm ((min (k + (bases d).length - a) (b - a) : Nat) : Int)
+        ((b - a : Nat) : Int) .plus
       obtain ⟨m, hm, hwf, hs, hb⟩ := okRelint_plus_extract c.location L' hL' hLd hLno
-        (k + (bases d).length) (bases c.base.exons).length (by omega) (by omega) (by omega) _ hok
+        (min (k + (bases d).length - a) (b - a)) (b - a) (by omega) (by omega) (by omega) _ hok
       refine ⟨m, hm, hwf, Or.inr (by rw [hs, hLs]), ?_⟩
-      have htake : List.take ((bases c.base.exons).length - (k + (bases d).length))
-          (List.drop (k + (bases d).length) (bases L')) = List.drop (k + (bases d).length) (bases L') := by
+      have htake : List.take (b - a - min (k + (bases d).length - a) (b - a))
+          (List.drop (min (k + (bases d).length - a) (b - a)) (bases L'))
+          = List.drop (min (k + (bases d).length - a) (b - a)) (bases L') := by
         apply List.take_of_length_le
-        rw [hLb]; simp only [List.length_drop, List.length_map]; omega
+        rw [hLb]; simp only [List.length_drop, List.length_map, hFlen]; omega
       rw [htake, hLb, ← List.map_drop] at hb
-      exact hb
+      rw [hb, ctx.filt, drop_of_range _ a b (k + (bases d).length) ctx.hb,
+        ← filter_drop_range (inWin c.w) _ a b (k + (bases d).length) ctx.range]
   obtain ⟨u, hu, hwf, hst, hb⟩ := claim
   unfold okKUtr
   simp only [ctx.hD, hE, hc.scope, hc.sub, h.win, Bool.and_self, not_true_eq_false, if_false, ctx.off,
-    Bool.false_eq_true, hu, hfilter, hwf, hb]
+    Bool.false_eq_true, hu, hwf, hb]
   rcases hst with rfl | hst
   · simp
   · simp [hst]
